@@ -14,7 +14,8 @@ import numpy as np
 from odl.operator.operator import (
     Operator, OperatorComp, OperatorLeftScalarMult, OperatorRightScalarMult,
     OperatorRightVectorMult, OperatorSum, OperatorPointwiseProduct)
-from odl.operator.default_ops import (IdentityOperator, ConstantOperator)
+from odl.operator.default_ops import (
+    IdentityOperator, ConstantOperator, ScalingOperator)
 from odl.solvers.nonsmooth import (proximal_arg_scaling, proximal_translation,
                                    proximal_quadratic_perturbation,
                                    proximal_const_func, proximal_convex_conj)
@@ -204,6 +205,9 @@ class Functional(Operator):
         -------
         derivative : `Operator`
         """
+        if self.domain == self.domain.field:
+            # Elements of a field are plain numbers, which have no ``T``
+            return ScalingOperator(self.domain, self.gradient(point))
         return self.gradient(point).T
 
     def translated(self, shift):
